@@ -627,7 +627,7 @@ func checkC15(c *Ctx) {
 			"variable "+shared+" is declared outside the per-file loop and written inside it: cross-file state")
 	}
 	// (2b) R15f: the table collected from ALL files of the run (httpgen.GlobalUnwrapInfo)
-	c.checkGlobalTableReads()
+	c.checkGlobalTableReads("R15f")
 
 	// (3) OpenAPI: one fresh generator per service
 	if mainPk := c.P.Pkg("cmd/protoc-gen-openapiv3"); mainPk == nil {
@@ -674,11 +674,11 @@ func checkC15(c *Ctx) {
 // function's own []*protogen.Message parameter (a message of the current
 // file: always in the table), or (b) in the comma-ok form whose !ok arm
 // computes the same information from the descriptor (annotations.GetUnwrapField).
-func (c *Ctx) checkGlobalTableReads() {
+func (c *Ctx) checkGlobalTableReads(rid string) {
 	r := c.R
 	pk := c.P.Pkg(pkgHTTP)
 	if pk == nil {
-		r.Unres("R15f", "httpgen", "", "package not loaded")
+		r.Unres(rid, "httpgen", "", "package not loaded")
 		return
 	}
 	info := pk.TypesInfo
@@ -753,7 +753,7 @@ func (c *Ctx) checkGlobalTableReads() {
 				return true
 			})
 			if ownKey {
-				r.OKd("R15f", key, c.P.Pos(ix.Pos()), map[string]any{"why": "key is a message of the current file"})
+				r.OKd(rid, key, c.P.Pos(ix.Pos()), map[string]any{"why": "key is a message of the current file"})
 				return true
 			}
 			// (b) comma-ok with fallback
@@ -814,7 +814,7 @@ func (c *Ctx) checkGlobalTableReads() {
 					}
 				}
 			}
-			r.CheckD(fallback, "R15f", key, c.P.Pos(ix.Pos()),
+			r.CheckD(fallback, rid, key, c.P.Pos(ix.Pos()),
 				"the run-wide unwrap table is consulted for a message that may live in another file, without falling back to the message's own annotation: the file's output changes with the set of files generated in the same invocation", nil)
 			return true
 		})
